@@ -7,6 +7,7 @@ import (
 	"fmt"
 	"math"
 	"math/big"
+	"slices"
 	"strings"
 	"time"
 
@@ -349,6 +350,8 @@ func (v *sshCertDefaultValidator) Valid(cert *ssh.Certificate, _ SignSSHOptions)
 		return errs.Forbidden("ssh certificate has an unknown type '%d'", cert.CertType)
 	case cert.KeyId == "":
 		return errs.Forbidden("ssh certificate key id cannot be empty")
+	case slices.Contains(cert.ValidPrincipals, ""):
+		return errs.Forbidden("ssh certificate principals cannot contain empty values")
 	case cert.ValidAfter == 0:
 		return errs.Forbidden("ssh certificate validAfter cannot be 0")
 	case cert.ValidBefore < cast.Uint64(now().Unix()):
